@@ -6,7 +6,7 @@ import sympy as sp
 
 from ..cfg import must_dataflow
 from ..facts import AnalysisBroken, walk, strip_targs, REPO, VERIF, compile_flags
-from ..pp import pp, skip
+from ..pp import pp, skip, canon_text as CT
 from ..util import args, assignment, callee, is_call, obj, ref_decl, find_var, root_of, member_path
 from ..symexec import Interp, Return, is_arr, truth
 from ..kalg import OutOfFragment
@@ -643,7 +643,7 @@ def rule_algorithms(F, R):
             if lam and [c for c in lam[0].calls(lambda c: callee(c) == "nano::detail::stack")]:
                 g = lam[0]
                 ifs = [x for x in g.nodes() if x["k"] == "if" and "matrix.cols()" in pp(x["c"][x["r"].index("cond")])]
-                okn = len(ifs) == 1 and pp(ifs[0]["c"][ifs[0]["r"].index("cond")]) == "((col + block_cols) >= matrix.cols())"
+                okn = len(ifs) == 1 and pp(ifs[0]["c"][ifs[0]["r"].index("cond")]) == CT("((col + block_cols) >= matrix.cols())")
                 if okn:
                     th = [pp(a) for c in walk(ifs[0]["c"][ifs[0]["r"].index("then")]) if c["k"] == "call" and callee(c) == "nano::detail::stack" for a in args(c)[:3]]
                     el = [pp(a) for c in walk(ifs[0]["c"][ifs[0]["r"].index("else")]) if c["k"] == "call" and callee(c) == "nano::detail::stack" for a in args(c)[:3]]
